@@ -226,10 +226,12 @@ func (c *GroupCoordinator) SyncGroup(ctx context.Context, req *kmsg.SyncGroupReq
 		c.mu.Unlock()
 		return mkErrResp(protocol.ILLEGAL_GENERATION), nil
 	}
-	if _, ok := state.members[req.MemberID]; !ok {
+	member, ok := state.members[req.MemberID]
+	if !ok {
 		c.mu.Unlock()
 		return mkErrResp(protocol.UNKNOWN_MEMBER_ID), nil
 	}
+	member.lastHeartbeat = time.Now()
 	if state.state == groupStatePreparingRebalance {
 		c.mu.Unlock()
 		return mkErrResp(protocol.REBALANCE_IN_PROGRESS), nil
@@ -290,6 +292,9 @@ func (c *GroupCoordinator) Heartbeat(ctx context.Context, req *kmsg.HeartbeatReq
 		c.mu.Unlock()
 		return mkResp(protocol.UNKNOWN_MEMBER_ID)
 	}
+	// Any heartbeat from a known member proves it is alive, also when the reply
+	// tells it to re-join: the session must not lapse while it reacts to that.
+	member.lastHeartbeat = time.Now()
 	if req.Generation != state.generationID {
 		c.mu.Unlock()
 		return mkResp(protocol.ILLEGAL_GENERATION)
@@ -298,7 +303,6 @@ func (c *GroupCoordinator) Heartbeat(ctx context.Context, req *kmsg.HeartbeatReq
 		c.mu.Unlock()
 		return mkResp(protocol.REBALANCE_IN_PROGRESS)
 	}
-	member.lastHeartbeat = time.Now()
 	resp := mkResp(protocol.NONE)
 	if err := c.persistGroupLocked(ctx, req.Group, state); err != nil {
 		resp.ErrorCode = protocol.UNKNOWN_SERVER_ERROR
